@@ -69,6 +69,12 @@ class OrderedSet(collections.abc.MutableSet):
         other = set(other)
         return all(e in self for e in other) and (len(self) > len(other))
 
+    def __and__(self, other):
+        # order by self (the inherited operator iterates other)
+        assert not isinstance(other, str)  # treat string as atomic value, not iterable
+        other = set(other)
+        return OrderedSet([e for e in self if e in other])
+
     def __repr__(self):
         return "OrderedSet([%s])" % (", ".join(map(repr, self.impl.keys())))
 
